@@ -871,6 +871,57 @@ func structuralObligation(w *World, ms *ModSets, st *Structural) *Obligation {
 			o.Model = "no call site of " + st.Target + " found: the callers obligation is vacuous"
 			return o
 		}
+	case "synchronous":
+		// every call of the target happens on the calling goroutine of its (transitive) callers: no call site sits in a
+		// closure that is started with `go`, handed to a startGoroutine* helper or to time.AfterFunc. The list after the
+		// colon names closures that are allowed to be asynchronous (none, normally).
+		o.Desc = "every call of " + st.Target + " is made synchronously (not from a spawned goroutine or timer)"
+		for _, fn := range w.AllFn {
+			calls := false
+			for _, b := range fn.Blocks {
+				for _, in := range b.Instrs {
+					if ci, ok := in.(ssa.CallInstruction); ok {
+						if f, ok := ci.Common().Value.(*ssa.Function); ok && matchCallee(st, f, nil) {
+							calls = true
+							sites++
+						}
+					}
+				}
+			}
+			if !calls || fn.Parent() == nil || allowed[funcKey(fn)] {
+				continue
+			}
+			// fn is a closure: how is it used by its parent?
+			for _, b := range fn.Parent().Blocks {
+				for _, in := range b.Instrs {
+					mc, ok := in.(*ssa.MakeClosure)
+					if !ok || mc.Fn != fn || mc.Referrers() == nil {
+						continue
+					}
+					for _, r := range *mc.Referrers() {
+						switch u := r.(type) {
+						case *ssa.Go:
+							bad = append(bad, funcKey(fn)+" (started with go at "+w.pos(u.Pos())+")")
+						case ssa.CallInstruction:
+							name := ""
+							if f, ok := u.Common().Value.(*ssa.Function); ok {
+								name = f.String()
+							} else if u.Common().IsInvoke() {
+								name = u.Common().Method.Name()
+							}
+							if strings.Contains(name, "startGoroutine") || strings.Contains(name, "AfterFunc") {
+								bad = append(bad, funcKey(fn)+" (handed to "+name+" at "+w.pos(u.Pos())+")")
+							}
+						}
+					}
+				}
+			}
+		}
+		if sites == 0 {
+			o.Status = "error"
+			o.Model = "no call site of " + st.Target + " found: the obligation is vacuous"
+			return o
+		}
 	case "writers":
 		o.Desc = "every store to " + st.Target + " is made from: " + strings.Join(st.Allowed, ", ")
 		comp := "F:" + st.Pkg + "." + st.Target
